@@ -870,13 +870,16 @@ func init() {
 		Level: "exploration",
 		Rule: "PRNG-generated sessions of the real netconf.Driver over devsim.Conn against the ncsim server model: 3-25 RPCs (profile 'long': 104-143, " +
 			"ids beyond 200) of 15 kinds plus 2 locally failing ones; per request the server replies now / late (held until the harness has seen the caller's " +
-			"timeout error, then released before / inside / together with / after later calls) / never; x {1.0,1.1} x {no echo, echo with marks, echo sharing reads with the reply} x segmentation " +
+			"timeout error, then released before / inside / together with / after later calls) / never / straddle (head of the reply at once, tail 3-40 ms before or 0-30 ms after the " +
+			"caller's 150 ms deadline, channel read delay default..50 ms; the straddling call is judged only as own-reply-or-timeout); x {1.0,1.1} x {no echo, echo with marks, echo sharing reads with the reply} x segmentation " +
 			"(fixed 1,3,17,4096, whole, geom, mix) x chunkings of 1.1 replies (incl. boundaries inside message-id=\"...\") x bodies that quote a foreign message-id=\"N\" as text. " +
 			"Non-trivial = the server saw >=3 requests and (a late reply had been delivered in full before a later call returned, or a verified success " +
 			"followed a timed-out call, or a verified success whose reply had a chunk boundary inside the message-id attribute). Distinct = descriptor hash.",
 		Assumptions: []string{
 			"one transport read never carries bytes of two server messages (message marks after every reply and every released late reply; quantifier of C08); " +
 				"the echo of the client's own request is not a server message: in half of the echoing sessions it carries no mark, so one read may hold the tail of the echo (delimiter, returns) and part or all of the reply that follows",
+			"in 2/3 of the unmarked-echo sessions the last 1-8 bytes of the echo of the client's hello stay in the transport until the first request is written (one read then carries the hello echo's delimiter and the beginning of the first request's echo)",
+			"a straddling reply's head is sent after the call's last write and nothing else enters the stream until its tail is out; sessions with a raised read delay use whole/4096-byte reads and abandon the transport before Close (Channel.Close would wait ReadDelay^2/1000)",
 			"a planned-now reply is sent either the moment the request is complete (before the echo of the trailing return) or after the call's last transport write (nothing follows the reply)",
 			"the server answers with message-id=\"N\" in double quotes, N the id of the request, and replies never precede the complete request",
 			"random reply bodies and request arguments contain none of: ']]>]]>', '#', '</rpc>', 'message-id', 'subscription-id' (checked by brute force by the generator); " +
